@@ -7,6 +7,7 @@ import Sqljson.Props.C08b
 import Sqljson.Props.C12b
 import Sqljson.Props.C14b
 import Sqljson.Props.C01b
+import Sqljson.Props.C05b
 import Sqljson.Props.C10b
 import Sqljson.Props.C15b
 import Sqljson.Props.C01
@@ -34,3 +35,4 @@ open Sqljson
 #audit_ns C01 Sqljson.C15b
 #audit_ns C01 Sqljson.C01b
 #audit C01 [Sqljson.Exec.Refine.refine_run]
+#audit_ns C01 Sqljson.C05b
